@@ -36,6 +36,7 @@ type TEnv struct {
 	vars        map[string]TV
 	lookup      func(string) (TV, bool)
 	lookupOld   func(string) (TV, bool)
+	lookupEntry func(string) (TV, bool) // variables as they were when the loop was entered
 	visitedOf   func(h Heap) string
 	loopEntry   Heap
 	cur, old    Heap
@@ -673,6 +674,14 @@ func (env *TEnv) trCall(x *ECall) (TV, error) {
 		}
 		n := *env
 		n.cur = env.loopEntry
+		return n.tr(x.Args[0])
+	case "atentry": // atentry(expr): expr with variables AND heap as they were when the loop was entered
+		if env.loopEntry == nil || env.lookupEntry == nil {
+			return TV{}, fmt.Errorf("atentry() outside a loop clause")
+		}
+		n := *env
+		n.cur = env.loopEntry
+		n.lookup = env.lookupEntry
 		return n.tr(x.Args[0])
 	case "loopfresh": // loopfresh(x): allocated after the loop was entered
 		if env.loopEntry == nil {
